@@ -8,7 +8,7 @@
    of generated moves from a consistent position (Props/C06.v).  Per run: the extracted move_fits is evaluated on every generated
    move of every stream position, and the engine's stored key is compared with its own from-scratch key after every move. *)
 From Coq Require Import NArith List.
-From JV Require Import Gen.Consts Model.Chess Model.Abs Proofs.MoveGenProofs Proofs.ZobristProofs Proofs.KeyProofs Proofs.GenProofs Proofs.LegalInv Proofs.LegalInvB.
+From JV Require Import Gen.Consts Model.Chess Model.Abs Proofs.MoveGenProofs Proofs.ZobristProofs Proofs.KeyProofs Proofs.GenProofs Proofs.LegalInv Proofs.LegalInvB Proofs.KeyDistinct Model.SearchChess.
 Local Open Scope N_scope.
 
 Theorem C04_tables_match_compiled :
@@ -49,8 +49,27 @@ Proof. intros g all m C H. exact (generated_moves_fit g C all m H). Qed.
 Theorem C04_key_right_after_any_play : forall g0 g, legal_inv_b g0 = true -> chess_reach g0 g -> keyok g.
 Proof. intros g0 g LB R. destruct (reach_legal g0 g (legal_inv_b_sound g0 LB) R) as (_ & _ & _ & _ & K). exact K. Qed.
 
-Definition C04_incremental_full : Prop := forall g m g', wf g = true -> keyok g ->
-  In m (legal_moves g) -> make_search_move g m = Made g' -> keyok g'.
+(* the property's first sentence in one statement: from a position satisfying the invariant (which includes stored key = recomputed
+   key) every legal move leads to a position satisfying it again *)
+Theorem C04_incremental_full : forall g m g', legal_inv g -> In m (legal_moves g) -> make_search_move g m = Made g' -> keyok g'.
+Proof.
+  intros g m g' LI HI M. unfold legal_moves, legal_values in HI. apply filter_In in HI. destruct HI as [HI _].
+  assert (L' : legal_inv g') by (apply (legal_step g true m g' LI HI); unfold c_make; rewrite M; reflexivity).
+  destruct L' as (_ & _ & _ & _ & K). exact K.
+Qed.
+
+(* positions that differ only by the side to move, by one man moved to an empty square, or by a simple capture never share a key
+   (from-scratch key; by XOR-independence of 1, 2 and 3 table entries) *)
+Theorem C04_side_to_move_changes_key : forall g, make_zobrist_hash (with_side g (negb (white g))) <> make_zobrist_hash g.
+Proof. exact side_changes_key. Qed.
+Theorem C04_quiet_move_changes_key : forall g p f t, length (bbs g) = 12%nat -> p < 12 -> f < 64 -> t < 64 -> f <> t ->
+  N.testbit (bb g p) f = true -> N.testbit (bb g p) t = false ->
+  make_zobrist_hash (with_bbs g (moved (bbs g) p f t)) <> make_zobrist_hash g.
+Proof. exact quiet_move_changes_key. Qed.
+Theorem C04_simple_capture_changes_key : forall g p f t v, length (bbs g) = 12%nat -> p < 12 -> v < 12 -> p <> v -> f < 64 -> t < 64 -> f <> t ->
+  N.testbit (bb g p) f = true -> N.testbit (bb g p) t = false -> N.testbit (bb g v) t = true ->
+  make_zobrist_hash (with_bbs g (captured (bbs g) p f t v)) <> make_zobrist_hash g.
+Proof. exact simple_capture_changes_key. Qed.
 
 Print Assumptions C04_tables_match_compiled.
 Print Assumptions C04_tables.
@@ -60,3 +79,7 @@ Print Assumptions C04_incremental.
 Print Assumptions C04_incremental_generated.
 Print Assumptions C04_generated_moves_fit.
 Print Assumptions C04_key_right_after_any_play.
+Print Assumptions C04_incremental_full.
+Print Assumptions C04_side_to_move_changes_key.
+Print Assumptions C04_quiet_move_changes_key.
+Print Assumptions C04_simple_capture_changes_key.
